@@ -16,6 +16,8 @@ pub struct C10;
 
 #[derive(Clone, Debug, Serialize, Deserialize)]
 pub enum Case {
+    /// proving requests (valid and refused ones, any entry point) written into one output stream
+    Stream { req: crate::pipeline::Req, items: Vec<(crate::props::c12::Via, crate::props::c12::Inval)> },
     Field(Fx),
     VecFr(Vec<Fx>),
     VecU8(Vec<u8>),
@@ -75,6 +77,10 @@ macro_rules! g {
 
 fn check_case(case: &Case, o: &mut Outcome) {
     match case {
+        Case::Stream { req, items } => {
+            gens::set_io_style((case_hash(case) % 4) as u8);
+            crate::props::c12::run_stream(req, items, o);
+        }
         Case::Field(f) => {
             let want = cr::enc_fr(&f.big());
             let got = g!(o, "fr_to_bytes_le", ru::fr_to_bytes_le(&f.0));
@@ -361,8 +367,8 @@ impl Property for C10 {
         "C10"
     }
     fn rule(&self) -> String {
-        "values of every encodable type: field elements (boundary-weighted incl. 0, p-1 and leading-zero-byte values), Vec<Fr>/Vec<u8> of length 0..64 and size classes up to 3000 elements / 70000 bytes (255/256/257, 65535/65536), index lists and usize incl. 0, 2^32-1, 2^32, 2^63, witnesses with any path length/direction bytes, proof values, identity tuples, prove/verify requests with any signal; \
-         checked: zerokit encoder == independent encoder, proving requests encoded independently (any signal length incl. empty) decode through proof_inputs_to_rln_witness to the same values and the leaf's direction bits, zerokit decoder on independent encoding == value, independent decoder on zerokit encoding == value, JSON and byte->JSON->byte round trips, bigint-JSON decimal strings, and one generated truncation + one extension of every witness encoding is not accepted. \
+        "values of every encodable type: field elements (boundary-weighted incl. 0, p-1 and leading-zero-byte values), Vec<Fr>/Vec<u8> of length 0..64 and size classes up to 3000 elements / 70000 bytes (255/256/257, 65535/65536), index lists and usize incl. 0, 2^32-1, 2^32, 2^63, witnesses with any path length/direction bytes, proof values, identity tuples, prove/verify requests with any signal; streams of 2..6 proving requests for one member (valid / outside the circuit's bit range / mid = limit / truncated / non-binary direction; tree, witness and raw-prove entries) written into one writer; \
+         checked: zerokit encoder == independent encoder, proving requests encoded independently (any signal length incl. empty) decode through proof_inputs_to_rln_witness to the same values and the leaf's direction bits, zerokit decoder on independent encoding == value, independent decoder on zerokit encoding == value, JSON and byte->JSON->byte round trips, bigint-JSON decimal strings, and one generated truncation + one extension of every witness encoding is not accepted; for a stream: every successful request appends exactly one record of the documented length (288 / 128 bytes), a refused request appends nothing, and every record cut out at its offset is accepted by verification. \
          non-trivial = value with a zero-length vector, a leading-zero field element, or an integer >= 2^32; distinct by case content".into()
     }
     fn assumptions(&self) -> Vec<String> {
@@ -394,6 +400,7 @@ impl Property for C10 {
     fn check(&self, _ctx: &Ctx, case: &Case) -> Outcome {
         let mut o = Outcome::new();
         let (label, nt) = match case {
+            Case::Stream { items, .. } => ("stream-of-proving-requests", items.len() >= 2),
             Case::Field(f) => ("field", leading_zero(f)),
             Case::VecFr(v) => ("vec_fr", v.is_empty() || v.iter().any(leading_zero)),
             Case::VecU8(v) => ("vec_u8", v.is_empty()),
@@ -445,11 +452,47 @@ impl Property for C10 {
             }
         }
         *stats.labels.entry("exhaustive-truncations-of-3-witnesses".into()).or_default() += 1;
+        // the bytes the proving functions write: streams of requests into one writer
+        use crate::props::c12::{Inval, Via};
+        let reqs = crate::pipeline::draw(&crate::pipeline::req_strategy(300), ctx.seed, "c10-stream-req", ctx.tier.pick(3, 24));
+        let item = || {
+            (
+                prop_oneof![Just(Via::Tree), Just(Via::Witness), Just(Via::RawProve)],
+                prop_oneof![
+                    4 => Just(Inval::Valid),
+                    3 => (any::<u16>(), any::<u16>()).prop_map(|(a, d)| Inval::MidAboveBitRange(a, d)),
+                    2 => (0u32..100_000).prop_map(Inval::LimitFarAbove),
+                    1 => Just(Inval::MidEqLimit),
+                    1 => any::<u16>().prop_map(Inval::TruncateAt),
+                    1 => (any::<u8>(), any::<u8>()).prop_map(|(a, b)| Inval::BitValue(a, b)),
+                ],
+            )
+        };
+        let lists = crate::pipeline::draw(&proptest::collection::vec(item(), 2..5).boxed(), ctx.seed, "c10-stream-items", reqs.len());
+        let canonical = vec![
+            (Via::Witness, Inval::MidAboveBitRange(4464, 29_999)),
+            (Via::Witness, Inval::Valid),
+            (Via::Tree, Inval::LimitFarAbove(7)),
+            (Via::Tree, Inval::Valid),
+            (Via::RawProve, Inval::MidAboveBitRange(0, 0)),
+            (Via::RawProve, Inval::Valid),
+        ];
+        for (k, req) in reqs.into_iter().enumerate() {
+            let items = if k == 0 { canonical.clone() } else { lists[k].clone() };
+            let c = Case::Stream { req, items };
+            let mut out = self.check(ctx, &c);
+            out.label("fixed-streams");
+            stats.record(&out, case_hash(&c), || self.sample_view(&c));
+            if let Some(m) = out.fail {
+                return Some((m, Some(c)));
+            }
+        }
         None
     }
     fn sample_view(&self, case: &Case) -> serde_json::Value {
         match case {
             Case::Witness { w, cut, extend } => serde_json::json!({"Witness": {"s": w.s, "limit": w.limit, "mid": w.mid, "path_len": w.path.len(), "bits": w.bits, "cut": cut, "extend": extend}}),
+            Case::Stream { req, items } => serde_json::json!({"Stream": {"index": req.index, "limit": req.limit, "mid": req.mid, "items": format!("{items:?}")}}),
             Case::VecFr(v) if v.len() > 4 => serde_json::json!({"VecFr_len": v.len(), "first": v[0]}),
             c => serde_json::to_value(c).unwrap(),
         }
